@@ -32,8 +32,9 @@ func runRenames(repo, verif string) int {
 		Offsets []int    `json:"offsets"`
 		Props   []string `json:"props"`
 		Type    string   `json:"type"`
-		Ord     int      `json:"ord"`   // position among the function's variables of that type, in declaration order
-		Param   int      `json:"param"` // index among the function's parameters (receiver first), -1 for other variables
+		Ord     int      `json:"ord"`    // position among the function's variables of that type, in declaration order
+		Param   int      `json:"param"`  // index among the function's parameters (receiver first), -1 for other variables
+		Result  int      `json:"result"` // index among the function's named results, -1 for other variables
 	}
 	var out []item
 	for _, name := range P.spec.FuncOrder {
@@ -154,7 +155,7 @@ func runRenames(repo, verif string) int {
 				})
 			}
 			sort.Ints(offs)
-			out = append(out, item{Func: name, Local: o.Name(), File: file, Offsets: offs, Props: sp.Props, Type: types.TypeString(o.Type(), nil), Ord: ordOf(o), Param: paramIndex(fn, o)})
+			out = append(out, item{Func: name, Local: o.Name(), File: file, Offsets: offs, Props: sp.Props, Type: types.TypeString(o.Type(), nil), Ord: ordOf(o), Param: paramIndex(fn, o), Result: resultIndex(fn, o)})
 		}
 	}
 	sort.Slice(out, func(i, j int) bool {
@@ -171,6 +172,18 @@ func runRenames(repo, verif string) int {
 func paramIndex(fn *ssa.Function, o types.Object) int {
 	for i, p := range fn.Params {
 		if p.Object() == o {
+			return i
+		}
+	}
+	return -1
+}
+
+func resultIndex(fn *ssa.Function, o types.Object) int {
+	if fn.Signature == nil {
+		return -1
+	}
+	for i := 0; i < fn.Signature.Results().Len(); i++ {
+		if fn.Signature.Results().At(i) == o {
 			return i
 		}
 	}
